@@ -209,7 +209,7 @@ func checkC06(cx *Ctx, r *Report) {
 				n := namedOf(fa.X.Type())
 				if n != nil && n.Obj().Pkg() != nil && n.Obj().Pkg().Path() == "encoding/xml" {
 					nLenient++
-					r.Fail("R-WHO", "xml.Decoder."+fieldVar(fa.X.Type(), fa.Field).Name()+"@"+w.FuncKey(fn), w.InstrPos(st), "an encoding/xml decoder option is changed: requests that are not well-formed XML may be accepted")
+					r.Fail("R-WHO", "xml.Decoder."+fname(fieldVar(fa.X.Type(), fa.Field))+"@"+w.FuncKey(fn), w.InstrPos(st), "an encoding/xml decoder option is changed: requests that are not well-formed XML may be accepted")
 				}
 			}
 		}
@@ -657,18 +657,52 @@ func (cx *Ctx) checkTimeWindow(r *Report, rule string) {
 		r.Undecided(rule, "checkIfRequestTimeIsStillValid", w.FnPos(fn), "too many paths")
 		return
 	}
-	fvOf := func(v ssa.Value) string { // name of the getter free variable a call invokes
+	// the getters by position in the factory's signature (lower bound, upper bound): names do not matter
+	roleOfFV := func(fv *ssa.FreeVar) string {
+		var p *ssa.Parameter
+		switch b := fx.bindings[fv].(type) {
+		case *ssa.Parameter:
+			p = b
+		case *ssa.Alloc:
+			if st := fx.storesToCell(b); len(st) == 1 {
+				p, _ = st[0].(*ssa.Parameter)
+			}
+		}
+		if p != nil && fn.Parent() != nil {
+			for i, q := range fn.Parent().Params {
+				if q == p {
+					switch i {
+					case 0:
+						return "notBefore"
+					case 1:
+						return "notOnOrAfter"
+					}
+				}
+			}
+		}
+		return fv.Name()
+	}
+	var fvOf func(v ssa.Value) string
+	fvOf = func(v ssa.Value) string { // role of the getter free variable a call invokes
 		c, ok := v.(*ssa.Call)
 		if !ok {
+			// a local that holds the getter's result: `nb := notBefore()`
+			if ld, isLd := v.(*ssa.UnOp); isLd && ld.Op == token.MUL {
+				if cell, isCell := ld.X.(*ssa.Alloc); isCell {
+					if st := fx.storesToCell(cell); len(st) == 1 {
+						return fvOf(st[0])
+					}
+				}
+			}
 			return ""
 		}
 		if ld, ok := c.Call.Value.(*ssa.UnOp); ok && ld.Op == token.MUL {
 			if fv, ok := ld.X.(*ssa.FreeVar); ok {
-				return fv.Name()
+				return roleOfFV(fv)
 			}
 		}
 		if fv, ok := c.Call.Value.(*ssa.FreeVar); ok {
-			return fv.Name()
+			return roleOfFV(fv)
 		}
 		return ""
 	}
